@@ -253,7 +253,27 @@ func runC14(x *Exec) {
 							return
 						}
 					}
-					// the fault has cleared: same connection after refresh, and a new connection
+					// the fault has cleared. First a plain statement on the same connection WITHOUT a
+					// refresh: it may fail, it may not crash, and what it returns must be committed data
+					if vt != "" && out.okTable {
+						var plain string
+						var perr error
+						w.Solo(v, func() {
+							var rows [][]string
+							rows, perr = v.Query("select * from " + vt)
+							plain = RowsString(rows)
+						})
+						w.CheckPanics()
+						if w.Viol != nil {
+							return
+						}
+						if perr == nil && plain != allRows && plain != afterRows {
+							x.Fail("C14-wrong-answer", "%s: the next SELECT on the same connection (no refresh) returns %s: neither %s nor %s", desc, plain, allRows, afterRows)
+							return
+						}
+						x.Probe("post-fault-select-without-refresh")
+					}
+					// then: same connection after refresh, and a new connection
 					if vt != "" && out.okTable {
 						var same string
 						var rerr, werr error
